@@ -420,7 +420,8 @@ def _history_child(case, refs):
                 got = xlate.translate(exe, q, d, ld=op["ld"], io_plan=io_plan, abort_plan=ab, extra_seam=tm,
                                       stream_cache=streams if op.get("share") else None,
                                       apply_only=bool(f and f["kind"] == "apply_only"),
-                                      wipe_registries_after=bool(f and f.get("wipe_registries")))
+                                      wipe_registries_after=bool(f and f.get("wipe_registries")),
+                                      forget_registered_md_after=bool(f and f.get("forget_registered_md")))
                 if op.get("share") and q["wire"] == "ast" and n_streams and len(streams) == n_streams:
                     bump("reach:same_query_object_translated_again")
                 elif op.get("share") and q["wire"] == "ast" and n_streams:
@@ -645,15 +646,21 @@ def execute(case):
         # process-wide registries are emptied right after every abandoned first phase. If nothing differs any more, the
         # difference comes from exactly what K4 describes; if something still differs, it is something else and is
         # reported as an ordinary violation.
-        c2 = copy.deepcopy(case)
-        for op in c2["ops"]:
-            if (op.get("fault") or {}).get("kind") == "apply_only":
-                op["fault"]["wipe_registries"] = True
-        r2 = isolate.call_isolated(_history_child, (c2, refs), timeout=CASE_TIMEOUT)
-        if not r2["violations"]:
-            for v in res["violations"]:
-                v["attributed"] = "registries-after-abandoned-first-phase"
-            res["stats"]["reach:violation_attributed_to_recorded_finding_K4"] = 1
+        # K5 likewise: additionally the extended-metadata types the caller registered (add_extended_md) for the abandoned
+        # translation are forgotten on its executor.
+        for label, keys in (("registries-after-abandoned-first-phase", ("wipe_registries",)),
+                            ("registered-extended-md-after-abandoned-first-phase", ("wipe_registries", "forget_registered_md"))):
+            c2 = copy.deepcopy(case)
+            for op in c2["ops"]:
+                if (op.get("fault") or {}).get("kind") == "apply_only":
+                    for k in keys:
+                        op["fault"][k] = True
+            r2 = isolate.call_isolated(_history_child, (c2, refs), timeout=CASE_TIMEOUT)
+            if not r2["violations"]:
+                for v in res["violations"]:
+                    v["attributed"] = label
+                res["stats"]["reach:violation_attributed_to_recorded_finding_" + ("K4" if len(keys) == 1 else "K5")] = 1
+                break
     return res
 
 
@@ -733,6 +740,8 @@ K4_SIGNATURE = "C07:probe-differs:registries-after-abandoned-first-phase"
 def signature(case, v):
     if v.get("attributed") == "registries-after-abandoned-first-phase":
         return K4_SIGNATURE
+    if v.get("attributed") == "registered-extended-md-after-abandoned-first-phase":
+        return "C07:probe-differs:registered-extended-md-after-abandoned-first-phase"
     if case["prop"] == "C02":
         return f"C02:{v['invariant']}:{case['backend']}:{'fault' if v.get('k') is not None else 'nofault'}"
     shape = []
